@@ -274,6 +274,14 @@ def _walk(rec, when):
                             ('without arguments', lambda: cls()),
                             ('as a bare class', lambda: cls),
                             ('with code and text', lambda: cls(code, 'text')),
+                            ('with a broker reply text containing %',
+                             lambda: cls("NOT_FOUND - no queue 'q' in vhost "
+                                         "'%2F'")),
+                            ('with a text containing format fields',
+                             lambda: cls('100% {} %s %(x)s {0} {name} '
+                                         '%d', 1, None)),
+                            ('with keyword-free odd arguments',
+                             lambda: cls(b'bytes', 404, ('t',), {'k': 1})),
                             ('through a bare subclass, no arguments',
                              lambda: sub()),
                             ('through a bare subclass, as a class',
